@@ -1,8 +1,11 @@
 (* Pinned statements for C06: compiled on every check run. A statement weakened in Props/ fails here. *)
-From Coq Require Import List Permutation.
+From Coq Require Import List Permutation String.
 From TS Require Import Model.Str Model.Outcome Model.Unicode Model.Types Model.Parse Model.Reconcile Model.Collect.
 From TS Require Import Model.Lang.TypeScript Model.Lang.Kotlin Model.Lang.Swift Model.Lang.Scala Model.Lang.Go Model.Lang.Python.
-From TS Require Proofs.C06.
+From TS Require Import Model.Lang.Common Model.MultiFile.
+From TS Require Model.Writer.
+From TS Require Import Spec.C06MultiSpec.
+From TS Require Proofs.C06 Proofs.C14Front Proofs.C14Witness Proofs.C06Multi Proofs.C06MultiWitness.
 Import ListNotations.
 From TS Require Props.C06.
 
@@ -30,3 +33,101 @@ Goal let a := Proofs.C06.mk_const (lit "X") (Zpos xH) in let b := Proofs.C06.mk_
   Permutation [a; b] [b; a] /\ p_consts (single_file_input [a; b]) <> p_consts (single_file_input [b; a]).
 Proof. exact Props.C06.C06_equal_names_refuted. Qed.
 Print Assumptions Props.C06.C06_equal_names_refuted.
+Goal forall l1 l2 : list (str * parsed), Permutation l1 l2 ->
+    Proofs.C06Multi.all_distinct (collect l1) ->
+    forall ho : list imported -> list imported, Proofs.C06Multi.oracle_set_determined ho ->
+    Proofs.C06Multi.cs_same (multi_crates ho l1) (multi_crates ho l2).
+Proof. exact Props.C06.C06_multi_arrival_order_irrelevant. Qed.
+Print Assumptions Props.C06.C06_multi_arrival_order_irrelevant.
+Goal forall l1 l2 : list (str * parsed), Permutation l1 l2 -> Proofs.C06Multi.cs_rel (collect l1) (collect l2).
+Proof. exact Props.C06.C06_multi_collector_arrival_order. Qed.
+Print Assumptions Props.C06.C06_multi_collector_arrival_order.
+Goal forall (lang : lang) (l1 l2 : list (str * parsed)) (ho1 ho2 : list imported -> list imported) (hc1 hc2 : crate_types -> crate_types),
+    Permutation l1 l2 -> Proofs.C06Multi.all_distinct (collect l1) -> Proofs.C06Multi.ws_ambiguity (collect l1) = None ->
+    Proofs.C14Front.oracle_ok ho1 -> Proofs.C14Front.oracle_ok ho2 -> Proofs.C14Front.oracle_ok hc1 -> Proofs.C14Front.oracle_ok hc2 ->
+    Proofs.C06Multi.cs_same (multi_crates ho1 l1) (multi_crates ho2 l2) /\
+    Forall2 Proofs.C06Multi.plan_same (multi_plan lang hc1 (multi_crates ho1 l1)) (multi_plan lang hc2 (multi_crates ho2 l2)) /\
+    (forall (St : Type) (gen : St -> str -> scoped -> parsed -> outcome (str * St)), Proofs.C06Multi.reads_items gen ->
+       forall st, generate_crates gen st (multi_plan lang hc1 (multi_crates ho1 l1)) =
+                  generate_crates gen st (multi_plan lang hc2 (multi_crates ho2 l2))).
+Proof. exact Props.C06.C06_multi_hash_order_irrelevant. Qed.
+Print Assumptions Props.C06.C06_multi_hash_order_irrelevant.
+Goal forall uc : unicode,
+  (forall cfg, Proofs.C06Multi.reads_items (fun st (_ : str) im pd => ts_generate_multi uc cfg st im pd)) /\
+  (forall cfg, Proofs.C06Multi.reads_items (fun (st : unit) c im pd => match kt_generate_multi uc cfg c im pd with
+                                                       | Ok text => Ok (text, st) | Err e => Err e | Panic s => Panic s end)) /\
+  (forall cfg, Proofs.C06Multi.reads_items (fun st (_ : str) (_ : scoped) pd => sw_generate_multi uc cfg st pd)) /\
+  (forall cfg, Proofs.C06Multi.reads_items (fun (st : unit) (_ : str) (_ : scoped) pd => match sc_generate uc cfg pd with
+                                                                         | Ok text => Ok (text, st) | Err e => Err e | Panic s => Panic s end)) /\
+  (forall cfg, Proofs.C06Multi.reads_items (fun st (_ : str) (_ : scoped) pd => go_generate_multi uc cfg st pd)) /\
+  (forall cfg, Proofs.C06Multi.reads_items (fun st (_ : str) (_ : scoped) pd => py_generate_multi uc cfg st pd)).
+Proof. exact Props.C06.C06_multi_generators_read_items. Qed.
+Print Assumptions Props.C06.C06_multi_generators_read_items.
+Goal exists arrivals,
+    parse_workspace uc_exec [] [] (fun l => l) Proofs.C06MultiWitness.ws_amb = Ok arrivals /\
+    Proofs.C06Multi.all_distinct (collect arrivals) /\
+    Proofs.C06Multi.ws_ambiguity (collect arrivals) = Some "one-name-imported-from-two-crates-that-rename-it-differently"%string /\
+    Proofs.C14Front.oracle_ok (@Proofs.C14Witness.idl imported) /\ Proofs.C14Front.oracle_ok (@rev imported) /\
+    Proofs.C06MultiWitness.app_field_types (multi_crates Proofs.C14Witness.idl arrivals) = [RSimple (lit "AlphaItem"); RSimple (lit "AlphaItem")] /\
+    Proofs.C06MultiWitness.app_field_types (multi_crates (@rev _) arrivals) = [RSimple (lit "BetaItem"); RSimple (lit "BetaItem")] /\
+    (exists a b, Proofs.C06MultiWitness.m_run Proofs.C14Witness.idl Proofs.C14Witness.idl Proofs.C06MultiWitness.ws_amb = Some a /\
+                 Proofs.C06MultiWitness.m_run (@rev _) Proofs.C14Witness.idl Proofs.C06MultiWitness.ws_amb = Some b /\ a <> b).
+Proof. exact Props.C06.C06_ambiguous_imports_refuted. Qed.
+Print Assumptions Props.C06.C06_ambiguous_imports_refuted.
+Goal exists arrivals,
+    parse_workspace uc_exec [] [] (fun l => l) Proofs.C06MultiWitness.ws_clean = Ok arrivals /\
+    Permutation arrivals (rev arrivals) /\ Proofs.C06Multi.all_distinct (collect arrivals) /\ Proofs.C06Multi.ws_ambiguity (collect arrivals) = None /\
+    Proofs.C14Front.oracle_ok (@Proofs.C14Witness.idl imported) /\ Proofs.C14Front.oracle_ok (@rev imported) /\
+    Proofs.C14Front.oracle_ok (@Proofs.C14Witness.idl (str * list str)) /\ Proofs.C14Front.oracle_ok (@rev (str * list str)) /\
+    map fst (multi_crates Proofs.C14Witness.idl arrivals) = [lit "alpha"; lit "app"; lit "beta"] /\
+    Proofs.C06MultiWitness.app_field_types (multi_crates (@rev _) (rev arrivals)) = [RSimple (lit "Item"); RSimple (lit "Leaf"); RSimple (lit "AlphaNode")] /\
+    Proofs.C06MultiWitness.app_imports (@rev _) (multi_crates (@rev _) (rev arrivals)) = [(lit "alpha", lit "Item"); (lit "beta", lit "Edge"); (lit "beta", lit "Leaf")] /\
+    generate_crates Proofs.C06MultiWitness.m_ts_gen [] (multi_plan TypeScript Proofs.C14Witness.idl (multi_crates Proofs.C14Witness.idl arrivals)) =
+    generate_crates Proofs.C06MultiWitness.m_ts_gen [] (multi_plan TypeScript (@rev _) (multi_crates (@rev _) (rev arrivals))).
+Proof. exact Props.C06.C06_multi_nonvacuous. Qed.
+Print Assumptions Props.C06.C06_multi_nonvacuous.
+Goal forall (uc : unicode) (ho1 ho2 : list imported -> list imported) (pd : parsed),
+    Proofs.C14Front.oracle_ok ho1 -> Proofs.C14Front.oracle_ok ho2 ->
+    file_import_ambiguous (all_references uc pd) (p_type_names pd) (p_imports pd) = false ->
+    reconcile_referenced_types uc ho1 pd = reconcile_referenced_types uc ho2 pd.
+Proof. exact Props.C06.C06_multi_file_hash_order_irrelevant. Qed.
+Print Assumptions Props.C06.C06_multi_file_hash_order_irrelevant.
+Goal forall (uc : unicode) (T ign : list str) (ho1 ho2 : list imported -> list imported) (ws : list ws_entry),
+    Proofs.C14Front.oracle_ok ho1 -> Proofs.C14Front.oracle_ok ho2 ->
+    forallb (Proofs.C06Multi.file_unambiguous uc T ign) ws = true ->
+    parse_workspace uc T ign ho1 ws = parse_workspace uc T ign ho2 ws.
+Proof. exact Props.C06.C06_multi_workspace_parse_hash_order_irrelevant. Qed.
+Print Assumptions Props.C06.C06_multi_workspace_parse_hash_order_irrelevant.
+Goal forall (uc : unicode) (T ign : list str) tstr own ho f,
+    parse_file_multi uc tstr T own ign ho f =
+    match Proofs.C06Multi.parse_file_pre uc T ign tstr own f with
+    | Ok o => Ok (option_map (reconcile_referenced_types uc ho) o) | Err e => Err e | Panic s => Panic s
+    end.
+Proof. exact Props.C06.C06_multi_parse_file_front_half. Qed.
+Print Assumptions Props.C06.C06_multi_parse_file_front_half.
+Goal forall (uc : unicode) (T ign : list str) (lang : lang) (ws : list ws_entry)
+         (hf1 hf2 ho1 ho2 : list imported -> list imported) (hc1 hc2 : crate_types -> crate_types) (a1 : list (str * parsed)),
+    Proofs.C14Front.oracle_ok hf1 -> Proofs.C14Front.oracle_ok hf2 -> Proofs.C14Front.oracle_ok ho1 -> Proofs.C14Front.oracle_ok ho2 ->
+    Proofs.C14Front.oracle_ok hc1 -> Proofs.C14Front.oracle_ok hc2 ->
+    forallb (Proofs.C06Multi.file_unambiguous uc T ign) ws = true ->
+    parse_workspace uc T ign hf1 ws = Ok a1 ->
+    Proofs.C06Multi.all_distinct (collect a1) -> Proofs.C06Multi.ws_ambiguity (collect a1) = None ->
+    parse_workspace uc T ign hf2 ws = Ok a1 /\
+    forall a2, Permutation a1 a2 ->
+      forall (St : Type) (gen : St -> str -> scoped -> parsed -> outcome (str * St)), Proofs.C06Multi.reads_items gen ->
+        forall st, generate_crates gen st (multi_plan lang hc1 (multi_crates ho1 a1)) =
+                   generate_crates gen st (multi_plan lang hc2 (multi_crates ho2 a2)).
+Proof. exact Props.C06.C06_multi_end_to_end. Qed.
+Print Assumptions Props.C06.C06_multi_end_to_end.
+Goal forallb (Proofs.C06Multi.file_unambiguous uc_exec [] []) Proofs.C06MultiWitness.ws_clean = true /\
+  exists arrivals, parse_workspace uc_exec [] [] (@rev _) Proofs.C06MultiWitness.ws_clean = Ok arrivals /\
+                   Proofs.C06Multi.all_distinct (collect arrivals) /\ Proofs.C06Multi.ws_ambiguity (collect arrivals) = None.
+Proof. exact Props.C06.C06_multi_end_to_end_nonvacuous. Qed.
+Print Assumptions Props.C06.C06_multi_end_to_end_nonvacuous.
+Goal forallb (Proofs.C06Multi.file_unambiguous uc_exec [] []) Proofs.C06MultiWitness.ws_file_amb = false /\
+  Proofs.C06MultiWitness.kept_imports Proofs.C14Witness.idl Proofs.C06MultiWitness.ws_file_amb =
+    [(lit "app", [{| base_crate := lit "alpha"; type_name := lit "Item" |}])] /\
+  Proofs.C06MultiWitness.kept_imports (@rev _) Proofs.C06MultiWitness.ws_file_amb =
+    [(lit "app", [{| base_crate := lit "beta"; type_name := lit "Item" |}])].
+Proof. exact Props.C06.C06_multi_file_ambiguous_refuted. Qed.
+Print Assumptions Props.C06.C06_multi_file_ambiguous_refuted.
